@@ -75,8 +75,8 @@ EXPECTED = {
 }
 
 
-def _fresh(kind):
-    sb = Sandbox(kinds=kind)
+def _fresh(kind, root=None):
+    sb = Sandbox(kinds=kind, root=root)
     prog = Program("vpc08")
     prog.mod.__dict__["KeyOverrideResult"] = KeyOverrideResult
     prog.mod.__dict__["InMemoryPartition"] = InMemoryPartition
@@ -214,3 +214,110 @@ def faults(k: int, vi: int, tsel: int, si: int, store: int, dense: bool):
     tsel = pick(tsel, 48 if dense else 4)
     with concrete_region():
         _run(si, STORES[store], k, vi, tsel, dense)
+
+
+# ------------------------------------------------------------------------------------------------
+# validation of the crash model against real process death (translator validation; no verdict about memento)
+# ------------------------------------------------------------------------------------------------
+
+
+def _snapshot(root):
+    out = {}
+    for d, dirs, files in os.walk(root):
+        dirs.sort()
+        for f in sorted(files):
+            p = os.path.join(d, f)
+            with open(p, "rb") as fh:
+                data = fh.read()
+            if f.endswith(".memento.json"):
+                import re
+
+                # wall-clock fields differ between two runs
+                data = re.sub(rb'"(time|runtime|runtimeSeconds|correlationId|correlation_id)": ("[^"]*"|[0-9.eE+-]+)', rb'"\1": "<clock>"', data)
+            out[os.path.relpath(p, root)] = data.replace(root.encode(), b"<root>").hex()
+        if not dirs and not files:
+            out[os.path.relpath(d, root) + "/"] = "<empty dir>"
+    return out
+
+
+def crash_child(root, kind, si, k, variant):
+    """entry point of the real child process: run the scenario and really die (os._exit) at operation k"""
+    name, pre, faulted, verify = SCENARIOS[si]
+    sb, prog = _fresh(kind, root=root)
+    for s_ in pre:
+        _call(prog, s_)
+    with FaultFS(sb.root, plan=(k, variant, 0), real_death=True):
+        _call(prog, faulted)
+    os._exit(0)
+
+
+@obligation(
+    "C08.crash_model_validation",
+    covers=("die-before", "die-after", "op:write", "op:open", "op:makedirs"),
+    split={"si": [0, 2, 3], "store": [0, 2]},
+    bounds="translator validation of FaultFS: for scenarios S1, S3, S4 on fs and fs+separate metadata path, every mutating operation k and "
+           "variants die-before / die-after: the directory tree left by the SIMULATED death (in-process, modelled buffering) is identical, "
+           "file by file and byte by byte, to the tree left by a REAL child interpreter that really dies (os._exit) at the same operation "
+           "with real buffered file objects",
+    variables="choice: k, variant",
+    budget_s={"quick": 300, "thorough": 600},
+    choice_vars=2,
+)
+def crash_model_validation(k: int, vi: int, si: int, store: int):
+    import shutil
+    import subprocess
+    import sys
+    import tempfile
+
+    k = pick(k, K_MAX)
+    vi = pick(vi, 2)
+    with concrete_region():
+        variant = ["die-before", "die-after"][vi]
+        kind = STORES[store]
+        scenario = SCENARIOS[si]
+        ops = fault_free_trace(kind, scenario)
+        assume(k < len(ops))
+        cover(variant)
+        cover("op:" + ops[k][0])
+        name, pre, faulted, verify = scenario
+        # (a) simulated death
+        root_a = tempfile.mkdtemp(prefix="vp-c08a-", dir="/dev/shm")
+        root_b = tempfile.mkdtemp(prefix="vp-c08b-", dir="/dev/shm")
+        try:
+            sb, prog = _fresh(kind, root=root_a)
+            try:
+                for s_ in pre:
+                    _call(prog, s_)
+                with FaultFS(sb.root, plan=(k, variant, 0)) as fs:
+                    try:
+                        _call(prog, faulted)
+                    except ProcessDied:
+                        pass
+                check("fault-fired", fs.fired, k)
+                snap_a = _snapshot(root_a)
+            finally:
+                prog.close()
+                root_keep = sb.root
+                sb.root = tempfile.mkdtemp(prefix="vp-c08x-", dir="/dev/shm")  # keep root_a until compared
+                sb.close()
+            # (b) real death in a child interpreter
+            code = ("import sys; sys.path[:0] = %r; import os; os.environ['HOME'] = %r; "
+                    "from obligations import c08; c08.crash_child(%r, %r, %d, %d, %r)"
+                    % ([p for p in sys.path if p], os.environ.get("HOME", "/dev/shm/vp-home"), root_b, kind, si, k, variant))
+            env = dict(os.environ)
+            env["MEMENTO_LOG_LEVEL"] = "CRITICAL"
+            p = subprocess.run([sys.executable, "-c", code], capture_output=True, text=True, env=env, timeout=180)
+            check("child-died-at-the-planned-operation", p.returncode == 77, (p.returncode, p.stderr[-400:]))
+            snap_b = _snapshot(root_b)
+            def _show(x):
+                try:
+                    return bytes.fromhex(x).decode("utf-8", "replace")[:400]
+                except ValueError:
+                    return x
+
+            diff = {f: (_show(snap_a.get(f, "<absent>")), _show(snap_b.get(f, "<absent>"))) for f in sorted(set(snap_a) | set(snap_b))
+                    if snap_a.get(f) != snap_b.get(f)}
+            check("simulated-death-leaves-the-tree-a-real-death-leaves", not diff, (name, k, ops[k], variant, diff))
+        finally:
+            shutil.rmtree(root_a, ignore_errors=True)
+            shutil.rmtree(root_b, ignore_errors=True)
